@@ -3,6 +3,7 @@ package main
 import (
 	"bytes"
 	"fmt"
+	"os"
 	"sort"
 	"strings"
 	"sync"
@@ -10,6 +11,7 @@ import (
 	"go.sia.tech/core/consensus"
 	"go.sia.tech/core/types"
 	"go.sia.tech/coreutils/chain"
+	"go.sia.tech/coreutils/testutil"
 	"go.sia.tech/coreutils/wallet"
 	"verif/internal/bfs"
 	"verif/internal/node"
@@ -23,12 +25,12 @@ type cmProxy struct{ cur *chain.Manager }
 func (p *cmProxy) AddV2PoolTransactions(b types.ChainIndex, t []types.V2Transaction) (bool, error) {
 	return p.cur.AddV2PoolTransactions(b, t)
 }
-func (p *cmProxy) TipState() consensus.State                       { return p.cur.TipState() }
-func (p *cmProxy) BestIndex(h uint64) (types.ChainIndex, bool)     { return p.cur.BestIndex(h) }
-func (p *cmProxy) PoolTransactions() []types.Transaction           { return p.cur.PoolTransactions() }
-func (p *cmProxy) RecommendedFee() types.Currency                  { return p.cur.RecommendedFee() }
-func (p *cmProxy) V2PoolTransactions() []types.V2Transaction       { return p.cur.V2PoolTransactions() }
-func (p *cmProxy) OnReorg(fn func(types.ChainIndex)) func()        { return func() {} }
+func (p *cmProxy) TipState() consensus.State                   { return p.cur.TipState() }
+func (p *cmProxy) BestIndex(h uint64) (types.ChainIndex, bool) { return p.cur.BestIndex(h) }
+func (p *cmProxy) PoolTransactions() []types.Transaction       { return p.cur.PoolTransactions() }
+func (p *cmProxy) RecommendedFee() types.Currency              { return p.cur.RecommendedFee() }
+func (p *cmProxy) V2PoolTransactions() []types.V2Transaction   { return p.cur.V2PoolTransactions() }
+func (p *cmProxy) OnReorg(fn func(types.ChainIndex)) func()    { return func() {} }
 func (p *cmProxy) UpdateV2TransactionSet(t []types.V2Transaction, from, to types.ChainIndex) ([]types.V2Transaction, error) {
 	return p.cur.UpdateV2TransactionSet(t, from, to)
 }
@@ -42,12 +44,20 @@ func (p *storeProxy) Tip() (types.ChainIndex, error) { return p.cur.Tip() }
 func (p *storeProxy) UnspentSiacoinElements() (types.ChainIndex, []types.SiacoinElement, error) {
 	return p.cur.UnspentSiacoinElements()
 }
-func (p *storeProxy) WalletEvent(id types.Hash256) (wallet.Event, error) { return p.cur.WalletEvent(id) }
-func (p *storeProxy) WalletEvents(o, l int) ([]wallet.Event, error)      { return p.cur.WalletEvents(o, l) }
-func (p *storeProxy) WalletEventCount() (uint64, error)                  { return p.cur.WalletEventCount() }
-func (p *storeProxy) AddBroadcastedSet(s wallet.BroadcastedSet) error    { return p.cur.AddBroadcastedSet(s) }
-func (p *storeProxy) BroadcastedSets() ([]wallet.BroadcastedSet, error)  { return p.cur.BroadcastedSets() }
-func (p *storeProxy) RemoveBroadcastedSet(s wallet.BroadcastedSet) error { return p.cur.RemoveBroadcastedSet(s) }
+func (p *storeProxy) WalletEvent(id types.Hash256) (wallet.Event, error) {
+	return p.cur.WalletEvent(id)
+}
+func (p *storeProxy) WalletEvents(o, l int) ([]wallet.Event, error) { return p.cur.WalletEvents(o, l) }
+func (p *storeProxy) WalletEventCount() (uint64, error)             { return p.cur.WalletEventCount() }
+func (p *storeProxy) AddBroadcastedSet(s wallet.BroadcastedSet) error {
+	return p.cur.AddBroadcastedSet(s)
+}
+func (p *storeProxy) BroadcastedSets() ([]wallet.BroadcastedSet, error) {
+	return p.cur.BroadcastedSets()
+}
+func (p *storeProxy) RemoveBroadcastedSet(s wallet.BroadcastedSet) error {
+	return p.cur.RemoveBroadcastedSet(s)
+}
 
 type nopSyncer struct{}
 
@@ -243,6 +253,68 @@ func trunc(s string, n int) string {
 	return s
 }
 
+// c06RepoStore: the same wallet fed chunk by chunk (chunk size 1 and 2) through a reorg, but into the
+// repository's own in-memory store (testutil.EphemeralWalletStore) instead of the harness store: the store's
+// notion of "how far am I" has to survive a chunk that ends on a reverted block.
+func c06RepoStore() {
+	for _, reg := range []univ.Regime{univ.RegimeV1, univ.RegimeX, univ.RegimeV2} {
+		for _, s := range stories(reg) {
+			if s.name != "sc" && s.name != "v2sc" {
+				continue
+			}
+			for _, f := range []int{int(s.start), int(s.start) + 1} {
+				for _, chunk := range []int{1, 2} {
+					u, _ := storyUniverse(reg, s, f, varShifted, 1)
+					n := node.New(u)
+					rig := newWalletRig(u.As[0].Key)
+					rig.cm.cur = n.CM
+					store := testutil.NewEphemeralWalletStore()
+					var mainTip, branchTip int
+					for k, nd := range u.Nodes {
+						if strings.HasPrefix(nd.Label, "m") {
+							mainTip = k
+						}
+						if strings.HasPrefix(nd.Label, "b") {
+							branchTip = k
+						}
+					}
+					sync := func(limit int) (bool, error) {
+						for i := 0; i < limit; i++ {
+							tip, _ := store.Tip()
+							rus, aus, err := n.CM.UpdatesSince(tip, chunk)
+							if err != nil {
+								return false, err
+							}
+							if len(rus)+len(aus) == 0 {
+								return true, nil
+							}
+							if err := store.UpdateChainState(func(ux wallet.UpdateTx) error { return rig.w.UpdateChainState(ux, rus, aus) }); err != nil {
+								return false, err
+							}
+						}
+						return false, nil
+					}
+					where := fmt.Sprintf("%s, chunk size %d, repository EphemeralWalletStore", u.Describe(), chunk)
+					n.CM.AddBlocks(u.Blocks(u.PathTo(mainTip)))
+					if ok, err := sync(60); err != nil || !ok {
+						run.Violate("c06:repo-store-cannot-follow", fmt.Sprintf("%s: the wallet does not reach the tip of the linear chain (err %v)", where, err), nil)
+						rig.w.Close()
+						continue
+					}
+					n.CM.AddBlocks(u.Blocks(u.PathTo(branchTip)))
+					ok, err := sync(80)
+					run.Add(1, 1, 1, 1)
+					tip, _ := store.Tip()
+					if err != nil || !ok || tip != n.CM.Tip() {
+						run.Violate("c06:repo-store-cannot-follow", fmt.Sprintf("%s: after the reorg the wallet store is at %v, the manager at %v, after 80 chunks (err %v): a chunk ending on a reverted block leaves the store on the reverted index", where, tip, n.CM.Tip(), err), map[string]any{"universe": u.Describe(), "chunk": chunk})
+					}
+					rig.w.Close()
+				}
+			}
+		}
+	}
+}
+
 var rolePerm = [4]int{0, 1, 2, 3}
 
 func rolesOf(p [4]int, actor int) (out []int) {
@@ -255,6 +327,10 @@ func rolesOf(p [4]int, actor int) (out []int) {
 }
 
 func c06() {
+	c06RepoStore()
+	if os.Getenv("VERIF_C06_ONLY") == "repostore" { // debugging aid
+		return
+	}
 	depth := 3
 	if run.Thorough() {
 		depth = 4
